@@ -938,6 +938,22 @@ func Run(r *common.Run) error {
 		c.entryPoints(g, []byte("ab"))
 	}
 
+	// identities with equal (category, type, lang) but different names: well formed per
+	// XEP-0115 5.4 (only identical 4-tuples are ill-formed), order left open by 5.1; the code
+	// keeps the given order (theorem C20_equal_key_identities_keep_order).  At most 8 of them:
+	// Go's sort.Slice is an insertion sort (stable) up to 12 elements.
+	tie := []gIdent{{"client", "pc", "", "B"}, {"client", "pc", "", "A"}, {"client", "pc", "en", "z"}, {"a", "pc", "", "C"}, {"client", "pc", "", ""}}
+	orderedSubsets(tie, 4, func(ids []gIdent) {
+		c.info(gInfo{ids: ids, feats: []string{"f"}}, "identity-ties", 0)
+	})
+	for k := 0; k < r.Pick(100, 2000); k++ {
+		var ids []gIdent
+		for m, n := 0, 2+r.Rnd.Intn(7); m < n; m++ {
+			ids = append(ids, gIdent{[]string{"a", "b"}[r.Rnd.Intn(2)], []string{"", "t"}[r.Rnd.Intn(2)], []string{"", "en"}[r.Rnd.Intn(2)], c.word()})
+		}
+		c.info(gInfo{ids: ids}, "identity-ties", 0)
+	}
+
 	// small-scope exhaustive: every ordered selection from small pools
 	idPool := []gIdent{{"a", "b", "", "n"}, {"a", "", "b", ""}, {"", "a", "b", "m"}}
 	featPool := []string{"a", "", "a<"}
